@@ -102,8 +102,8 @@ inductive SubPc where
 /-- program counter of the worker thread of a future -/
 inductive WPc where
   | notStarted
-  | sAcq       -- repaired only: about to acquire `_start_lock`
-  | popen      -- about to `Popen(...)` (repaired: holding `_start_lock`, flag checked in the same step)
+  | sAcq       -- repaired only: about to acquire `_start_lock` and read `_cancel_requested`
+  | popen      -- about to `Popen(...)` (repaired: holding `_start_lock`, flag read as False in the previous step)
   | comm       -- blocked in `communicate`
   | cMark      -- repaired only: `cancel()` in `finally`: about to take `_start_lock` and set the flag
   | cPoll      -- `cancel()` in `finally`: about to `poll()` (is_running)
@@ -138,7 +138,8 @@ inductive ShPc where
   | jSnapL     -- wait=True, repaired: holds `_lock`, about to snapshot
   | jRel       -- wait=True, repaired: about to release `_lock`
   | jWaitAll   -- wait=True, repaired: in `concurrent.futures.wait(futures)`
-  | ret        -- shutdown returned
+  | ret        -- shutdown(wait=False) returned
+  | jret       -- shutdown(wait=True) returned
   | raised     -- shutdown(wait=True) propagated a job's exception out of `_join` (current only)
   deriving DecidableEq, Repr
 
@@ -237,12 +238,14 @@ def wStep (v : Variant) (c : Cfg) (σ : State) (i : Nat) (timeout : Bool) : Opti
   match σ.wpc i with
   | .notStarted => none
   | .fin => none
-  | .sAcq => if timeout then none else some (.slockAcq, { σ with wpc := upd σ.wpc i .popen })
+  | .sAcq =>
+    -- `with self._start_lock: if self._cancel_requested: raise ShutdownError()` — no `Popen`, lock released
+    if timeout then none else
+    if σ.creq i then some (.slockAcq, { σ with exn := upd σ.exn i .cancelled, wpc := upd σ.wpc i .setRes })
+    else some (.slockAcq, { σ with wpc := upd σ.wpc i .popen })
   | .popen =>
     if timeout then none else
-    if v.cancelFlag && σ.creq i then
-      some (.popen, { σ with exn := upd σ.exn i .cancelled, wpc := upd σ.wpc i .setRes })
-    else if (c.job i).popenFails then
+    if (c.job i).popenFails then
       some (.popen, { σ with exn := upd σ.exn i .other, wpc := upd σ.wpc i .setRes })
     else
       some (.popen, { σ with proc := upd σ.proc i .running, wpc := upd σ.wpc i .comm })
@@ -294,7 +297,7 @@ def cStep (v : Variant) (c : Cfg) (σ : State) (k i : Nat) : Option (Op × State
 /-! ### shutdown caller -/
 
 /-- `_join` loop of the current code after the snapshot / after a `result()` that returned normally -/
-def joinNext (todo : List Nat) : ShPc := if todo.isEmpty then .ret else .jRes
+def joinNext (todo : List Nat) : ShPc := if todo.isEmpty then .jret else .jRes
 
 /-- what `future.result()` of a finished head does to the `_join` loop -/
 def joinResume (σ : State) (k : Nat) (j : Nat) (rest : List Nat) : State :=
@@ -331,8 +334,9 @@ def shStep (v : Variant) (c : Cfg) (σ : State) (k : Nat) : Option (Op × State)
   | .jSnapL => some (.snap, { σ with snap := upd σ.snap k σ.futs, sh := upd σ.sh k .jRel })
   | .jRel => some (.lockRel, { σ with lock := none, sh := upd σ.sh k .jWaitAll })
   | .jWaitAll =>
-    if (σ.snap k).all (fun i => finished σ i) then some (.poolWait, { σ with sh := upd σ.sh k .ret }) else none
+    if (σ.snap k).all (fun i => finished σ i) then some (.poolWait, { σ with sh := upd σ.sh k .jret }) else none
   | .ret => none
+  | .jret => none
   | .raised => none
 
 /-! ### the transition function -/
@@ -450,32 +454,40 @@ def mkCfg (jobs : List Job) (waits : List Bool) : Cfg :=
 
 def plainJob : Job := ⟨false, false, false, .unsat⟩
 
-/-- `submit` reads `_shutdown` (False), `shutdown(wait=False)` runs to completion, the submit goes on -/
+/-- `submit` reads `_shutdown` (False), `shutdown(wait=False)` runs to completion, the submit goes on.
+Valid for every variant with `submitLocked = false` (with the cancel flag the worker has one more step). -/
 def cexSubmitCfg : Cfg := mkCfg [plainJob] [false]
-def cexSubmit : List Label :=
-  [.sub 0, .sh 0, .sh 0, .sh 0, .sh 0, .sh 0, .sub 0, .sub 0, .sub 0, .sub 0, .w 0 false]
+def cexSubmit (v : Variant) : List Label :=
+  [.sub 0, .sh 0, .sh 0, .sh 0, .sh 0, .sh 0, .sub 0, .sub 0, .sub 0, .sub 0, .w 0 false] ++
+  (if v.cancelFlag then [.w 0 false] else [])
 
-/-- the job is accepted, `shutdown(wait=False)` cancels it before the worker thread reached `Popen` -/
+/-- the job is accepted, `shutdown(wait=False)` cancels it before the worker thread reached `Popen`.
+Valid for every variant with `cancelFlag = false`. -/
 def cexCancelCfg : Cfg := mkCfg [plainJob] [false]
 def cexCancel : List Label :=
   [.sub 0, .sub 0, .sub 0, .sub 0, .sub 0, .sh 0, .sh 0, .sh 0, .c 0 0, .sh 0, .sh 0, .w 0 false]
 
-/-- `shutdown(wait=True)`: job 0 failed to start, `_join` re-raises its exception while job 1 is still running -/
+/-- `shutdown(wait=True)`: job 0 failed to start, `_join` re-raises its exception while job 1 is still running.
+Valid for every variant with `joinFixed = false`. -/
 def cexJoinCfg : Cfg := mkCfg [⟨false, false, true, .unsat⟩, plainJob] [true]
-def cexJoin : List Label :=
-  [.sub 0, .sub 0, .sub 0, .sub 0, .sub 0, .sub 1, .sub 1, .sub 1, .sub 1, .sub 1,
-   .w 0 false, .w 0 false, .w 1 false, .sh 0, .sh 0, .sh 0]
+def cexJoin (v : Variant) : List Label :=
+  [.sub 0, .sub 0, .sub 0, .sub 0, .sub 0, .sub 1, .sub 1, .sub 1, .sub 1, .sub 1] ++
+  (if v.cancelFlag then [.w 0 false, .w 0 false, .w 0 false, .w 1 false, .w 1 false]
+   else [.w 0 false, .w 0 false, .w 1 false]) ++ [.sh 0, .sh 0, .sh 0]
 
-/-- `shutdown(wait=True)` with repaired `submit` but the unlocked snapshot of the current `_join` -/
-def cexJoinSnapVariant : Variant := ⟨true, true, false⟩
+/-- `shutdown(wait=True)` with repaired `submit` but the unlocked snapshot of the current `_join`.
+Valid for every variant with `submitLocked = true`, `joinFixed = false`. -/
 def cexJoinSnapCfg : Cfg := mkCfg [plainJob] [true]
-def cexJoinSnap : List Label :=
-  [.sub 0, .sub 0, .sh 0, .sh 0, .sub 0, .sub 0, .sub 0, .w 0 false, .w 0 false]
+def cexJoinSnap (v : Variant) : List Label :=
+  [.sub 0, .sub 0, .sh 0, .sh 0, .sub 0, .sub 0, .sub 0, .w 0 false] ++ (if v.cancelFlag then [.w 0 false] else [])
 
-def witnesses : List (String × Variant × Cfg × List Label) :=
-  [("submit", .current, cexSubmitCfg, cexSubmit),
-   ("cancel", .current, cexCancelCfg, cexCancel),
-   ("join", .current, cexJoinCfg, cexJoin),
-   ("joinsnap", cexJoinSnapVariant, cexJoinSnapCfg, cexJoinSnap)]
+/-- the witness schedule of a counterexample theorem for variant `v`, if `v` still has that defect -/
+def witness (name : String) (v : Variant) : Option (Cfg × List Label) :=
+  if name = "submit" then (if v.submitLocked then none else some (cexSubmitCfg, cexSubmit v))
+  else if name = "cancel" then (if v.cancelFlag then none else some (cexCancelCfg, cexCancel))
+  else if name = "join" then (if v.joinFixed then none else some (cexJoinCfg, cexJoin v))
+  else if name = "joinsnap" then
+    (if v.submitLocked && !v.joinFixed then some (cexJoinSnapCfg, cexJoinSnap v) else none)
+  else none
 
 end HalmosVerif.Model.Popen
